@@ -321,6 +321,19 @@ class QueryCreator(BaseQueryCreator):
             pattern = "{0} {1} {2} .\n".format(subject, predicate, helpers[-1])
             return pattern + _text_filter(helpers[-1], value)
 
+        def member_pattern(container, value):
+            # The RDF writer exports the values of a Property as an rdf:Seq node whose
+            # members are attached with the numbered predicates rdf:_1, rdf:_2, ...
+            # (typed literals for numbers, dates, ...): a value is a member of the
+            # node, at whatever position, whose lexical form is the search value.
+            # EXISTS: an object that holds the value twice is still reported once.
+            helpers.append("?t{0}".format(len(helpers) + 1))
+            helpers.append("?t{0}".format(len(helpers) + 1))
+            pattern = "FILTER EXISTS {{ {0} {1} {2} . ".format(container, helpers[-2], helpers[-1])
+            pattern += "FILTER (STRSTARTS(STR({0}), \"{1}_\") && ".format(helpers[-2], str(RDF))
+            pattern += "STR({0}) = \"{1}\") }} .\n".format(helpers[-1], _escape_literal(value))
+            return pattern
+
         if "Doc" in self.q_dict.keys():
             doc_attrs = self.q_dict["Doc"]
             if len(doc_attrs) > 0:
@@ -365,9 +378,9 @@ class QueryCreator(BaseQueryCreator):
                     elif i[0] == "value":
                         values = i[1]
                         if values:
-                            self.query += "?p odml:hasValue ?v .\n?v rdf:type rdf:Bag .\n"
+                            self.query += "?p odml:hasValue ?v .\n"
                             for val in values:
-                                self.query += "?v rdf:li \"{}\" .\n".format(_escape_literal(val))
+                                self.query += member_pattern("?v", val)
                     else:
                         attr = Property.rdf_map(i[0])
                         if attr:
